@@ -19,6 +19,27 @@ _FMT_RE = re.compile(r'(\d*)([xcbB?hHiIlLqQsp])')
 _SIZES = {'x': 1, 'c': 1, 'b': 1, 'B': 1, '?': 1, 'h': 2, 'H': 2, 'i': 4, 'I': 4, 'l': 4, 'L': 4, 'q': 8, 'Q': 8}
 
 
+_TOKEN_RE = None
+
+
+def _resolve_fmt(fmt):
+    """a struct format built by string formatting from symbolic sizes ('>{0}s{1}s'.format(key_size, ...)) carries value tokens: each is
+    resolved by a case split over its feasible values (sizes: 0..512)"""
+    global _TOKEN_RE
+    if not isinstance(fmt, str) or '\u27e6' not in fmt:
+        return fmt
+    import re
+    from . import core
+    if _TOKEN_RE is None:
+        _TOKEN_RE = re.compile('\u27e6(\\d+)\u27e7')
+    eng = engine()
+
+    def sub(mo):
+        term = core.TOKENS[int(mo.group(1))]
+        return str(eng.concretize(core._mk_int(term), 0, 512))
+    return _TOKEN_RE.sub(sub, fmt)
+
+
 def _parse_fmt(fmt):
     if isinstance(fmt, bytes):
         fmt = fmt.decode()
@@ -53,6 +74,7 @@ def _any_sym(args):
 
 
 def unpack_from(fmt, buffer, offset=0):
+    fmt = _resolve_fmt(fmt)
     if not isinstance(buffer, SymBytes) and not isinstance(offset, SymInt):
         return _struct.unpack_from(fmt, buffer, offset)
     eng = engine()
@@ -102,6 +124,7 @@ def unpack_from(fmt, buffer, offset=0):
 
 
 def unpack(fmt, buffer):
+    fmt = _resolve_fmt(fmt)
     if not isinstance(buffer, SymBytes):
         return _struct.unpack(fmt, buffer)
     big, fields, size = _parse_fmt(fmt)
@@ -152,12 +175,14 @@ def _pack_items(fmt, args):
 
 
 def pack(fmt, *args):
+    fmt = _resolve_fmt(fmt)
     if not _any_sym(args):
         return _struct.pack(fmt, *args)
     return SymBytes(_pack_items(fmt, args)).lower()
 
 
 def pack_into(fmt, buffer, offset, *args):
+    fmt = _resolve_fmt(fmt)
     if not _any_sym(args) and not isinstance(buffer, SymBytes) and not isinstance(offset, SymInt):
         return _struct.pack_into(fmt, buffer, offset, *args)
     if not isinstance(buffer, SymBytes):
